@@ -22,14 +22,9 @@ def showEvent : Event → String
   | .fire e clk => s!"F:{showRat e.time}:{e.ctr}:{e.id}:{showRat clk}"
 
 def showStatus : Status → String
-  | .ok => "ok" | .backwards => "value" | .emptyQueue => "index" | .outOfFuel => "fuel"
+  | .ok => "ok" | .backwards => "value" | .outOfFuel => "fuel"
 
 def showEntry (e : Entry) : String := s!"{showRat e.time}:{e.ctr}:{e.id}"
-
-/-- consecutive entries strictly increasing (= `List.Pairwise Entry.lt`, the order being transitive) -/
-def sortedB : List Entry → Bool
-  | x :: y :: rest => decide (x.lt y) && sortedB (y :: rest)
-  | _ => true
 
 /-- pairs `d1:c1,d2:c2` -/
 def parsePairs? (s : String) : Option (List (Rat × Nat)) :=
@@ -49,13 +44,16 @@ def step (st : St) : List String → St × String
     match parseNat? id, parsePairs? pairs with
     | some id, some l => ({ st with tbl := (id, l) :: st.tbl.filter (·.1 ≠ id) }, "ok")
     | _, _ => (st, "bad-op")
-  | ["evolve", T, fuel, which] =>
+  | ["eps", x] =>
+    -- the threshold constant read out of the running code, compared with the model's `eps`
+    match parseRat? x with
+    | some x => (st, if x = eps then "ok" else s!"differs:{showRat eps}")
+    | none => (st, "bad-op")
+  | ["evolve", T, fuel, "new"] =>
     match parseRat? T, parseNat? fuel with
     | some T, some fuel =>
-      let run := if which == "old" then evolveUntilOld (kidsOf st.tbl) fuel st.h.s T
-                 else evolveUntil (kidsOf st.tbl) fuel st.h.s T
-      let h' := if which == "old" then { st.h with s := run.s, trace := st.h.trace ++ run.trace }
-                else stepOp (kidsOf st.tbl) fuel st.h (.evolve T)
+      let run := evolveUntil (kidsOf st.tbl) fuel st.h.s T
+      let h' := stepOp (kidsOf st.tbl) fuel st.h (.evolve T)
       -- clock, counter and queue are printed from the history state the theorems are about
       let out := s!"{showStatus run.status} t={showRat h'.s.t} ctr={h'.s.ctr} trace=" ++
         ";".intercalate (run.trace.map showEvent) ++ " queue=" ++
@@ -66,7 +64,8 @@ def step (st : St) : List String → St × String
     let h := st.h
     (st, s!"hz={showRat h.hz} t={showRat h.s.t} created={h.created.length} fired={(fired h.trace).length} " ++
       s!"pending={h.s.queue.length} sorted={sortedB (fired h.trace)} run=" ++
-      ";".intercalate ((fired h.trace).map showEntry))
+      ";".intercalate ((fired h.trace).map showEntry) ++ " created=" ++
+      ";".intercalate (h.created.map showEntry))
   | _ => (st, "bad-op")
 
 end HcipyVerif.Driver.C20
